@@ -477,8 +477,117 @@ def run(ctx, anchors=None):
                  "disabled opcodes fail before the executed/unexecuted test",
                  "the disabled-opcode gate depends on fExec: a disabled opcode in an unexecuted branch no longer fails")
 
+    # ---- R01.8 the conditional stack. ConditionStack keeps (size, position of the first false) instead of a vector of booleans;
+    # every member function must act on that pair as the vector operation acts on the vector it stands for (refinement, decided by
+    # cases on where the first false is: none / on top / below the top). G-SYM evaluates each member with the case decided.
+    from .. import symx as _sx
+    ctx.rule("R01.8", "ConditionStack's members refine the operations of a stack of booleans (cases: all true / first false on top / first false below)")
+    THIS_ = ("a", "this")
+    need = ["m_stack_size", "m_first_false_pos"]
+    have = set(fb.record_fields("ConditionStack"))
+    if [x for x in need if x not in have]:
+        raise AnalysisBroken("R01.8: anchor name(s) %s not found in ConditionStack - renamed or restructured; update the anchor table" % [x for x in need if x not in have])
+    S_, F_ = ("f", THIS_, "m_stack_size"), ("f", THIS_, "m_first_false_pos")
+    nf = fb.var("NO_FALSE", optional=True)
+    NFv = (nf or {}).get("value")
+    if NFv is None:
+        NFv = 0xFFFFFFFF
+    NF_ = _sx.C(NFv)
+    TOP = _sx.lin_add(S_, _sx.C(1), -1)
+    methods = {f.short: f for f in fb.funcs.values() if f.rec == "ConditionStack" and f.body is not None}
+
+    def run_case(f, case, fval=None):
+        def assume(term, conds):
+            if isinstance(term, tuple) and term[0] == "eq":
+                a, b = term[1], term[2]
+                pair = {a, b}
+                if pair == {F_, NF_}:
+                    return case == "A"
+                if F_ in pair and (TOP in pair or S_ in pair):
+                    other = TOP if TOP in pair else S_
+                    # `first false == size - 1` (before a decrement) / `== size` (pop_back compares after --size)
+                    if other == TOP:
+                        return case == "B"
+                    return False
+                if S_ in pair and _sx.C(0) in pair:
+                    return False
+            if term == ("a", "f"):
+                return bool(fval)
+            return None       # anything else (e.g. the non-emptiness asserted by pop_back / toggle_top) forks; aborting paths are dropped
+        X = _sx.Explorer(prog, assume=assume, inline=lambda fn, n: fn.rec == "ConditionStack", transparent=lambda n: True)
+        params = {p_["n"]: ("a", "f" if (p_.get("ty") or "").strip() == "bool" else "idx") for p_ in f.params}
+        outs = [o for o in X.explore(f, this=THIS_, params=params, limit=64) if o.status in ("ret", "end")]
+        return outs
+
+    def norm(t, case):
+        rep = {"A": (F_, NF_), "B": (F_, TOP)}.get(case)
+
+        def go(x):
+            if rep and x == rep[0]:
+                return rep[1]
+            if isinstance(x, tuple) and x and x[0] == "lin":
+                acc = _sx.C(x[1])
+                for (y, k) in x[2]:
+                    acc = _sx.lin_add(acc, _sx.lin_scale(go(y), k))
+                return acc
+            if isinstance(x, tuple):
+                return tuple(go(y) for y in x)
+            return x
+        return go(t)
+    SPEC = {
+        "toggle_top": {("A", None): (TOP, S_), ("B", None): (NF_, S_), ("C", None): (F_, S_)},
+        "push_back": {("A", 0): (S_, _sx.lin_add(S_, _sx.C(1))), ("A", 1): (NF_, _sx.lin_add(S_, _sx.C(1))), ("B", 0): (F_, _sx.lin_add(S_, _sx.C(1))), ("B", 1): (F_, _sx.lin_add(S_, _sx.C(1))),
+                      ("C", 0): (F_, _sx.lin_add(S_, _sx.C(1))), ("C", 1): (F_, _sx.lin_add(S_, _sx.C(1)))},
+        "pop_back": {("A", None): (NF_, TOP), ("B", None): (NF_, TOP), ("C", None): (F_, TOP)},
+    }
+    RETS = {"all_true": {"A": _sx.C(1), "B": _sx.C(0), "C": _sx.C(0)}}
+    nref = 0
+    for mname, table in sorted(SPEC.items()):
+        f = methods.get(mname)
+        if f is None:
+            raise AnalysisBroken("R01.8: ConditionStack::%s not found" % mname)
+        bad = []
+        for (case, fval), (wantF, wantS) in sorted(table.items(), key=repr):
+            try:
+                outs = run_case(f, case, fval)
+            except _sx.Unsupported as e:
+                raise AnalysisBroken("R01.8: %s: %s" % (mname, e))
+            if not outs or len(outs) > 8:
+                raise AnalysisBroken("R01.8: %s has %d non-aborting paths in the case %s" % (mname, len(outs), case))
+            nref += 1
+            for o in outs:
+                gotF = norm(o.heap.get((THIS_, "m_first_false_pos"), F_), case)
+                gotS = norm(o.heap.get((THIS_, "m_stack_size"), S_), case)
+                if gotF != norm(wantF, case) or gotS != norm(wantS, case):
+                    bad.append((case, fval, _sx.show(gotF), _sx.show(norm(wantF, case)), _sx.show(gotS), _sx.show(norm(wantS, case))))
+        ctx.site(len(table))
+        names = {"A": "all values true", "B": "the first false value is on top", "C": "there is a false value below the top"}
+        ctx.inst(not bad, "R01.8", "refines:" + mname, f.loc(), "ConditionStack::%s acts on (size, first false) as the vector operation does, in all %d cases" % (mname, len(table)),
+                 "ConditionStack::%s: when %s%s it leaves first-false = %s, size = %s; a stack of booleans would give first-false = %s, size = %s" %
+                 ((mname, names[bad[0][0]], "" if bad[0][1] is None else " and %s is pushed" % bool(bad[0][1]), bad[0][2], bad[0][4], bad[0][3], bad[0][5]) if bad else (mname, "", "", "", "", "", "")))
+    f = methods.get("all_true")
+    if f is None:
+        raise AnalysisBroken("R01.8: ConditionStack::all_true not found")
+    badr = []
+    for case, want in RETS["all_true"].items():
+        outs = run_case(f, case)
+        if len(outs) != 1 or norm(outs[0].ret, case) not in (want, ("eq",) + tuple(sorted((norm(F_, case), NF_), key=repr))):
+            r_ = norm(outs[0].ret, case) if outs else None
+            if not (r_ is not None and _sx.is_const(r_) and bool(r_[1]) == bool(want[1])):
+                badr.append((case, _sx.show(r_)))
+    ctx.inst(not badr, "R01.8", "refines:all_true", f.loc(), "all_true() is `first false == NO_FALSE`", "all_true() returns %s when %s" % ((badr[0][1], badr[0][0]) if badr else ("", "")))
+    f = methods.get("at")
+    if f is not None:
+        outs = run_case(f, "C")
+        okat = len(outs) == 1 and outs[0].ret == ("ap", "<", ("a", "idx"), F_)
+        ctx.inst(okat, "R01.8", "refines:at", f.loc(), "at(i) is `i < first false`", "at(i) returns %s, expected i < first-false" % (_sx.show(outs[0].ret) if outs else None))
+    ctx.floor("R01.8", nref, 10, "ConditionStack member x case combinations")
+
 
 MUTANTS = [
+    dict(name="toggle-top-clears-lower-false", file="debugger/see.h", regex=True, find=r"        \} else \{\n            // There is a false value, but not on top\..*?\n        \}\n", replace="        } else {\n            m_first_false_pos = NO_FALSE;\n        }\n", expect=["R01.8:refines:toggle_top"]),
+    dict(name="pop-keeps-popped-false", file="debugger/see.h", find="        if (m_first_false_pos == m_stack_size) {", replace="        if (m_first_false_pos == m_stack_size + 1) {", expect=["R01.8:refines:pop_back"]),
+    dict(name="push-false-not-recorded", file="debugger/see.h", find="        if (m_first_false_pos == NO_FALSE && !f) {", replace="        if (m_first_false_pos == NO_FALSE && !f && m_stack_size > 0) {", expect=["R01.8:refines:push_back"]),
     dict(name="dispatch-list-misses-VERIF", file="script/interpreter.cpp", find="} else if (fExec || (OP_IF <= opcode && opcode <= OP_ENDIF))", replace="} else if (fExec || opcode == OP_IF || opcode == OP_NOTIF || opcode == OP_ELSE || opcode == OP_ENDIF)", expect=["R01.2:conditional-dispatch-range"]),
     dict(name="max-opcode-back-to-NOP10", file="script/script.h", find="MAX_OPCODE = OP_CHECKSIGADD;", replace="MAX_OPCODE = OP_NOP10;", expect=["R01.1:MAX_OPCODE=max-defined", "R01.1:handled<=MAX_OPCODE"]),
     dict(name="case-label-deleted", file="script/interpreter.cpp", find="                case OP_NIP:\n", replace="                case OP_RESERVED2:\n", expect=["R01.2:dispatch=OP_NIP"]),
